@@ -11,7 +11,7 @@ return); what `yield X` means, what futures are and who resumes whom differs.
 Program  = {"nodes": [Node...], "root": 0, "shared": [nid...], "kinds": n,
             "faults": {"<kind>:<key>": mode}, ...}
 Node     = {"style": str, "ret": "return"|"result", "body": [Stmt...]}
-Stmt     = ["yield", Struct]
+Stmt     = ["yield", Struct] | ["yield", Struct, "twice"|"dup"]   same object yielded again / reached by two routes
          | ["sync", site, nid, how]          how: "call" | "value"
          | ["raise", site, cls]              cls: "exc" | "base"
          | ["try", body, kind, handler, fin] kind: "exc" | "base" | "none"
@@ -221,17 +221,31 @@ def exec_block(rt, fr, block):
         op = st[0]
         if op == "yield":
             struct, leaves = rt.build(fr, st[1])
-            k = fr.k
-            fr.k += 1
-            rt.ev_yield(fr, k, leaves)
-            try:
-                got = yield struct
-            except BaseException as e:
-                rt.ev_resume_exc(fr, k, leaves, e)
-                raise
-            else:
-                rt.ev_resume(fr, k, leaves, got)
-                fr.received.append(("got", got))
+            flag = st[2] if len(st) > 2 else None
+            obj = struct
+            if flag == "dup":
+                # the same container object reached by two routes within one yield
+                obj = [struct, (None, struct)]
+            for rep in range(2 if flag == "twice" else 1):
+                # "twice": the very same object is yielded again (after a failure: by the handler)
+                k = fr.k
+                fr.k += 1
+                snap = rt.snapshot(obj)
+                rt.ev_yield(fr, k, leaves)
+                try:
+                    got = yield obj
+                except BaseException as e:
+                    rt.ev_resume_exc(fr, k, leaves, e)
+                    rt.check_unchanged(fr, k, obj, snap)
+                    if flag == "twice" and rep == 0 and isinstance(e, Exception):
+                        fr.received.append(("caught", exc_desc(e)))
+                        rt.ev_caught(fr, e)
+                        continue
+                    raise
+                else:
+                    rt.ev_resume(fr, k, leaves, got)
+                    rt.check_unchanged(fr, k, obj, snap)
+                    fr.received.append(("got", got))
         elif op == "sync":
             v = rt.sync_call(fr, st)
             fr.received.append(("sync", v))
